@@ -29,14 +29,16 @@ const (
 	vsyncPath   = vrtPath + "/vsync"
 	vnetPath    = vrtPath + "/vnet"
 	vthreadPath = vrtPath + "/vthreads"
+	vatomicPath = vrtPath + "/vatomic"
 	threadsPath = "github.com/tokenized/threads"
 )
 
 var importMap = map[string]string{
-	"time":      vtimePath,
-	"sync":      vsyncPath,
-	"net":       vnetPath,
-	threadsPath: vthreadPath,
+	"time":        vtimePath,
+	"sync":        vsyncPath,
+	"net":         vnetPath,
+	"sync/atomic": vatomicPath,
+	threadsPath:   vthreadPath,
 }
 
 func die(format string, a ...interface{}) {
